@@ -110,46 +110,72 @@ Y_STATES = [
 ]
 
 
-def scenarios(rng, tier):
+def core_scenarios():
+    """fixed scenarios that every run explores (the random ones vary with the seed)"""
     out = []
+    out.append({"comp": "lru", "cfg": {"size": 2, "mark_on_update": True},
+                "threads": [[["set", 1, 10], ["get", 1]], [["set", 2, 20], ["set", 3, 30]], [["len"], ["get", 1]]]})
+    out.append({"comp": "store", "cfg": {"initial": [["a", "k", 1]]},
+                "threads": [[["set", "a", "k", 2], ["get", "a", "k"]], [["del_all", "a"], ["data", "a"]]]})
+    # readers overlapping a rewrite: a reader, the writer, another reader (reload) - in every order
+    out.append({"comp": "textfile", "cfg": {"states": T_STATES, "conf": {}},
+                "threads": [[["get", "alpha"]], [["write", 1]], [["get", "alpha"]]]})
+    out.append({"comp": "textfile", "cfg": {"states": T_STATES, "conf": {"find_first_match": True}},
+                "threads": [[["find", "net:ip", "10.0.0.1"]], [["write", 1]], [["get", "gamma"]]]})
+    # two systems compiled concurrently by one source; a reader overlapping a rewrite of a twice-included file
+    out.append({"comp": "yaml", "cfg": {"states": Y_STATES, "cache_size": 4},
+                "threads": [[["get", "alpha"]], [["get", "beta"]]]})
+    out.append({"comp": "yaml", "cfg": {"states": Y_STATES, "cache_size": 4},
+                "threads": [[["get", "alpha"]], [["write", 1]], [["get", "beta"]]]})
+    return out
+
+
+def scenarios(rng, tier):
+    out = core_scenarios()
     lru_ops = lambda: [rng.choice([["get", rng.randrange(3)], ["set", rng.randrange(3), rng.randrange(5)],
                                    ["del", rng.randrange(3)], ["contains", rng.randrange(3)], ["len"], ["clear"],
                                    ["set", rng.randrange(3), rng.randrange(5)]]) for _ in range(rng.randrange(1, 4))]
-    for _ in range(6 if tier == "quick" else 40):
+    for _ in range(4 if tier == "quick" else 40):
         out.append({"comp": "lru", "cfg": {"size": rng.choice([1, 2, 3]), "mark_on_update": rng.random() < 0.7},
                     "threads": [lru_ops() for _ in range(rng.choice([2, 2, 3]))]})
     store_op = lambda: rng.choice([["set", rng.choice("ab"), rng.choice(["k", "j"]), rng.choice([1, "x", None, [1, 2]])],
                                    ["get", rng.choice("ab"), rng.choice(["k", "j"])], ["del", rng.choice("ab"), "k"],
                                    ["del_all", rng.choice("ab")], ["data", rng.choice("ab")], ["find", "k", 1], ["list"]])
-    for _ in range(4 if tier == "quick" else 30):
+    for _ in range(3 if tier == "quick" else 30):
         out.append({"comp": "store", "cfg": {"initial": [["a", "k", 1]]},
                     "threads": [[store_op() for _ in range(rng.randrange(1, 3))] for _ in range(rng.choice([2, 3]))]})
     tf_op = lambda: rng.choice([["get", rng.choice(["alpha", "beta", "gamma"])], ["find", "net:ip", "10.0.0.1"],
                                 ["find", "net:mac", "aa:aa"]])
-    for _ in range(4 if tier == "quick" else 30):
+    for _ in range(2 if tier == "quick" else 30):
         ths = [[tf_op() for _ in range(rng.randrange(1, 3))] for _ in range(rng.choice([1, 2]))]
-        ths.append([["write", rng.choice([1, 2])]])
+        ths.insert(rng.randrange(len(ths) + 1), [["write", rng.choice([1, 2])]])
         out.append({"comp": "textfile", "cfg": {"states": T_STATES, "conf": {"find_first_match": rng.random() < 0.5}},
                     "threads": ths})
-    for _ in range(2 if tier == "quick" else 30):
+    for _ in range(1 if tier == "quick" else 30):
         ths = [[["get", rng.choice(["alpha", "beta"])] for _ in range(rng.randrange(1, 3))] for _ in range(rng.choice([1, 2]))]
-        ths.append([["write", rng.choice([1, 2, 3])]])
+        ths.insert(rng.randrange(len(ths) + 1), [["write", rng.choice([1, 2, 3])]])
         out.append({"comp": "yaml", "cfg": {"states": Y_STATES, "cache_size": rng.choice([1, 4])}, "threads": ths})
     return out
 
 
 def gen(rng, tier, mult=1):
-    per = (12 if tier == "quick" else 150) * mult
+    import itertools
+    per = (8 if tier == "quick" else 150) * mult
     for sc in scenarios(rng, tier):
         n = len(sc["threads"])
         # baseline orders without pre-emption
-        import itertools
         for order in itertools.permutations(range(n)):
             yield dict(sc, order=list(order), preempt=[], _meta={"style": "order"})
         if tier == "thorough" or sc["comp"] in ("lru", "textfile", "yaml"):
-            m = 12 if sc["comp"] == "yaml" else 4
-            for k in range(m):
-                yield dict(sc, order=list(range(n)), sweep=[k, m], _meta={"style": "sweep"})
+            m = 4 if sc["comp"] == "yaml" else 3
+            # a single pre-emption at every traced line, to every thread, for every start order (after the
+            # pre-empting thread has finished the scheduler continues round-robin, so the order decides who
+            # runs between the pre-emption and the resumption)
+            orders = list(itertools.permutations(range(n))) if (n <= 3 and (tier == "thorough" or sc["comp"] != "yaml"
+                                                                           or sc in core_scenarios())) else [tuple(range(n))]
+            for order in orders:
+                for k in range(m):
+                    yield dict(sc, order=list(order), sweep=[k, m], _meta={"style": "sweep"})
         for _ in range(per):
             k = rng.choice([1, 2, 2])
             pre = sorted([[rng.random(), rng.randrange(n)] for _ in range(k)])
